@@ -5,6 +5,8 @@ proof : lean/GeosModel/Props/C04.lean — rounding rule (javaRound = floor(x+1/2
         hot-pixel test = "closed segment meets the half-open pixel" (iff), pointwise reduction on GTree.
 tie   : (1) stream precise   — PrecisionModel(scale).getScale()/makePrecise() bits vs the floating model
         (2) stream hotpixel  — the real noding::snapround::HotPixel vs the Int model on every corner/side incidence
+        (4) stream collapse  — one operand is a sub-cell polygon at a feature point of the other: hasEdgesFor of the real EdgeNodingBuilder vs
+            "all vertices round to one point" (chain_collapses_iff) and the laws that follow from collapsed_operand_is_exterior / collapse_laws
         (3) stream prec-ops  — GEOS*Prec_r / GEOSGeom_setPrecision_r (all flags) on generated valid inputs; the driver checks
             the CONTRACT exactly: never fails, every ordinate a fixed point of the floating makePrecise (bit for bit),
             valid, classified like the exact Boolean combination farther than 2g from all input boundaries,
@@ -154,9 +156,42 @@ def sub_cell_feature(ghex, a, b):
     return found[0]
 
 
+def complete_collapse(ghex, a, b):
+    """does some purely polygonal operand collapse completely: every one of its vertices rounds (floor(v/g + 1/2) per ordinate) to one
+    and the same grid point, so that none of its edges survives snap rounding?"""
+    g = abs(_dec(ghex)) if ghex else 0.0
+    if not g > 0:
+        return False
+    for line in (a, b):
+        if not line or line == "-":
+            continue
+        cells, other = set(), [False]
+
+        def walk(e):
+            if e[0] in gtok.COLL:
+                for x in e[1]:
+                    walk(x)
+            elif e[0] == "Y":
+                for sq in e[1]:
+                    for pt in sq[1]:
+                        cells.add((math.floor(_dec(pt[0]) / g + 0.5), math.floor(_dec(pt[1]) / g + 0.5)))
+            elif e[1][1]:
+                other[0] = True
+        try:
+            walk(gtok.parse(line)[1])
+        except Exception:
+            continue
+        if len(cells) == 1 and not other[0]:
+            return True
+    return False
+
+
 def signature(op, flags, a, b, verdict, ghex=None):
     """Structural key of a failing case, used to match KNOWN_FINDINGS.json.
     subCellFeature: (class exception, no rounding tie) an input ring or line spans fewer than two grid cells in x or y
+    operandCollapsesCompletely: (with subCellFeature) every vertex of one purely polygonal operand rounds to one grid point: none of
+            its edges survives noding and the overlay must treat it as absent (OverlayNG::computeEdgeOverlay / InputGeometry::setCollapsed);
+            the recorded 'Ring edge missing' family has partially collapsing rings only (false)
     halfCellInput : (failure classes of the operations) an input ordinate sits on a rounding tie k + 1/2 of the grid
     class : which clause of the contract fails (exception | offgrid | invalid-result | ring-check | far-sample |
             stray-vertex | pointwise | line-reduce | crash)
@@ -174,6 +209,7 @@ def signature(op, flags, a, b, verdict, ghex=None):
         if cls == "exception" and ghex and sub_cell_feature(ghex, a, b):
             del sig["op"]            # one family whatever the operation: a ring / line thinner than two grid cells
             sig["subCellFeature"] = True
+            sig["operandCollapsesCompletely"] = complete_collapse(ghex, a, b)
             return sig
         if ghex:
             # is the scale 1/gridSize exact (gridSize a power of two)?  Otherwise grid-aligned ordinates k*gridSize times the
@@ -408,6 +444,41 @@ def run(ctx):
                                                 "modes": {k[5:]: v for k, v in agg.items() if k.startswith("mode_")}}
     except Exception as ex:
         corr["prec-ops"]["oracle_subsample"] = {"error": repr(ex)}
+    # ---- (4) an operand that collapses completely: edge flags of the real EdgeNodingBuilder vs the model, and the laws of Props/C04 section 6
+    nk = 3000 if quick else 120000
+    rk = verif.run_stream(exe, "collapse", ctx.seed, nk, ctx.work, shards=shards, driver_exe=DRV, timeout=6000)
+    corr["collapse"] = {"cases": rk["cases"], "disagreements": len(rk["disagreements"]) + rk.get("more_disagreements", 0), "distribution": rk["stats"]}
+    ctx.cov["samples"] += rk.get("samples", [])[:1]
+    if rk["error"]:
+        ctx.violation("stream collapse could not run: " + rk["error"], {"kind": "tie-broken", "correspondence": "collapse", "detail": rk["error"]}, nofail=True)
+    seenk = []
+    for idx, case, exp, got in rk["disagreements"]:
+        parts = case.split(" | ")
+        if not got.startswith("bad") or len(parts) < 4:
+            if "driver" not in seenk:
+                seenk.append("driver")
+                ctx.violation("driver could not judge a collapse case: " + got, {"kind": "tie-broken", "correspondence": "collapse", "case": case[:2000], "driver": got}, nofail=True)
+            continue
+        t = got.split()
+        ghex, a, b = parts[0].split()[1], parts[1], parts[2]
+        if t[1] == "exception":
+            sig = {"class": "exception", "stream": "collapse", "operandCollapsesCompletely": complete_collapse(ghex, a, b)}
+            why = "a fixed-precision overlay (%s) failed on valid input where one operand is a sub-cell polygon" % (t[2] if len(t) > 2 else "?")
+        elif t[1] == "collapse-model":
+            sig = {"class": "collapse-model", "stream": "collapse"}
+            why = "every vertex of a polygonal operand rounds to one grid point, yet EdgeNodingBuilder::hasEdgesFor reports surviving edges for it"
+        else:
+            sig = {"class": "collapse-law", "stream": "collapse", "which": " ".join(t[2:4])}
+            why = ("an operand without surviving edges must count as absent: intersection (and the difference taken from it) empty, union = difference = "
+                   "symmetric difference of the other operand; observed: " + " ".join(t[2:4]))
+        if sig in seenk:
+            continue
+        seenk.append(sig)
+        found_input = True
+        d = {"kind": "failing-input", "stream": "collapse", "gridSize": _dec(ghex), "gridSize_bits": ghex, "A": a, "A_wkt": gtok.wkt(a), "B": b, "B_wkt": gtok.wkt(b),
+             "edge_flags": parts[3], "verdict": got, "why": why, "signature": sig, "replay_line": "K %s | %s | %s" % (ghex, a, b),
+             "observed": [gtok.wkt(x[3:]) if x.startswith("ok ") else x for x in parts[4:9]]}
+        ctx.violation("fixed-precision overlay with a completely collapsing operand (gridSize=%r): %s  [%s]" % (_dec(ghex), why, json.dumps(sig, sort_keys=True)), d, signature=sig)
     ctx.cov["support_correspondence"] = corr
     if not proved:
         lf = getattr(ctx, "lean_failure", None) or {}
@@ -441,6 +512,16 @@ def replay(ctx, path):
             print("impl    :", obs)
             print("model   :", got[0] if got else "?")
             if code != 0 or not got or got[0] != obs:
+                rc = 1
+        elif ln[:2] == "K ":
+            if code != 0 or not obs.startswith("K "):
+                print("verdict : %s" % ("crash rc=%d" % code if code else "input rejected (%s)" % obs))
+                rc = 1 if code else rc
+                continue
+            _, got = verif.run_driver_lines("collapse", [obs], driver_exe=DRV)
+            print("observed:", obs.split(" | ", 3)[-1][:1500])
+            print("verdict :", got[0] if got else "?")
+            if not got or got[0] != "ok":
                 rc = 1
         else:
             if code != 0:
